@@ -6,8 +6,10 @@ import (
 	"bytes"
 	"encoding/json"
 	"fmt"
+	"gitee.com/Trisia/gotlcp/tlcp"
 	"io"
 	"math/rand/v2"
+	"net"
 	"os"
 	"strings"
 	"sync"
@@ -43,6 +45,109 @@ func c06Mode(suite uint16) string {
 		return "MGcm"
 	}
 	return "MCbc"
+}
+
+// c06Slow delays every transport Read: what the peer wrote meanwhile (the end of its handshake flight and whatever it
+// wrote right after it) is handed over in one piece.
+type c06Slow struct {
+	net.Conn
+	d time.Duration
+}
+
+func (c *c06Slow) Read(p []byte) (int, error) {
+	time.Sleep(c.d)
+	return c.Conn.Read(p)
+}
+
+type c06CoalIn struct {
+	Suite  uint16 `json:"suite"`
+	Sizes  []int  `json:"sizes"`
+	Resume bool   `json:"resume"` // a second connection on the session of the first: the client sends the last Finished and writes at once
+}
+
+// c06Coalesced: neither side calls Handshake; the side that sends the last Finished (server: full handshake, client:
+// resumed) writes application data at once, and the reader's transport hands the Finished and that data over together.
+// Everything written must be read, exactly and in order, and the stream must end with io.EOF.
+func c06Coalesced(out *emit.Out, in c06CoalIn) {
+	reg := tk.NewRegistry()
+	cc := tk.EPConfig{Suites: []uint16{in.Suite}, Ident: "cli", ServerName: "server.test", Cache: "c"}
+	sc := tk.EPConfig{Ident: "srv", Cache: "s"}
+	if in.Suite == 0xe051 || in.Suite == 0xe011 {
+		sc.Auth = 4
+	}
+	rounds := 1
+	if in.Resume {
+		rounds = 2
+	}
+	direct := ""
+	var gotN, sentN int
+	for round := 0; round < rounds && direct == ""; round++ {
+		cliT, srvT, _, _ := tk.StreamPair()
+		writerIsClient := round == 1
+		var cli, srv *tlcp.Conn
+		if writerIsClient {
+			cli, srv = tlcp.Client(cliT, tk.BuildTLCP(cc, reg)), tlcp.Server(&c06Slow{Conn: srvT, d: 25 * time.Millisecond}, tk.BuildTLCP(sc, reg))
+		} else {
+			cli, srv = tlcp.Client(&c06Slow{Conn: cliT, d: 25 * time.Millisecond}, tk.BuildTLCP(cc, reg)), tlcp.Server(srvT, tk.BuildTLCP(sc, reg))
+		}
+		writer, reader := srv, cli
+		if writerIsClient {
+			writer, reader = cli, srv
+		}
+		var sent, got []byte
+		var werr, rerr string
+		done := make(chan struct{})
+		go func() {
+			defer close(done)
+			var wg sync.WaitGroup
+			wg.Add(2)
+			go func() {
+				defer wg.Done()
+				for i, n := range in.Sizes {
+					p := bytes.Repeat([]byte{byte(0x61 + i)}, n)
+					sent = append(sent, p...)
+					if _, err := writer.Write(p); err != nil {
+						werr = tk.ErrClass(err)
+						break
+					}
+				}
+				writer.Close()
+			}()
+			go func() {
+				defer wg.Done()
+				buf := make([]byte, 4096)
+				for {
+					n, err := reader.Read(buf)
+					got = append(got, buf[:n]...)
+					if err != nil {
+						rerr = tk.ErrClass(err)
+						break
+					}
+				}
+				reader.Close()
+			}()
+			wg.Wait()
+		}()
+		select {
+		case <-done:
+		case <-time.After(10 * time.Second):
+			cliT.Close()
+			srvT.Close()
+			direct = "hang"
+			continue
+		}
+		gotN, sentN = len(got), len(sent)
+		switch {
+		case werr != "":
+			direct = "write right after the handshake failed: " + werr
+		case !bytes.Equal(got, sent):
+			direct = fmt.Sprintf("data written right after the last Finished and handed over together with it: read %d of %d bytes (then %s)", len(got), len(sent), rerr)
+		case rerr != "eof":
+			direct = "stream ends with " + rerr + " instead of io.EOF"
+		}
+	}
+	out.Add(emit.Case{Scenario: "written-at-once-after-the-last-finished/" + c06Mode(in.Suite), Trivial: false, Input: in, Direct: direct,
+		Observed: map[string]interface{}{"read": gotN, "written": sentN}})
 }
 
 func c06AddCase(out *emit.Out, scenario string, in c06Input) {
@@ -325,6 +430,11 @@ func runC06(p params) error {
 			in.Seg = [][]int{nil, {1400}, {4096, 1}, {512}, {100000}}[r.IntN(5)]
 			in.Bufs = [][]int{{4096}, {16384}, {20000}, {1179}, {700, 3000}, {65536}}[r.IntN(6)]
 			c06AddCase(out, "large-writes", in)
+		}
+	}
+	for _, su := range []uint16{0xe053, 0xe013, 0xe051, 0xe011} {
+		for _, rs := range []bool{false, true} {
+			c06Coalesced(out, c06CoalIn{Suite: su, Sizes: []int{360, 1, 5000}, Resume: rs})
 		}
 	}
 	// configurations used through Config.Clone carry the fields this property depends on
